@@ -110,7 +110,7 @@ def _depth_ops(e1: int, e2: int, w1: int, w2: int, opname: int, limit: int) -> b
 
 CONDITIONS = [
     Cond(
-        name="depth_single", fn=_depth_single, quick=100, thorough=600, per_path=30, shards_quick=16, shards_thorough=16,
+        name="depth_single", fn=_depth_single, quick=170, thorough=600, per_path=30, shards_quick=16, shards_thorough=16,
         bound="one operation: chain of depth <= 2 (thorough 3) with top level and deeper levels plain / inline fragment / named fragment, "
               "@skip/@include(if: $v) at any level, $v true/false, optional second branch (depth 0..3, 3 wraps, same or other response key), every limit in -1..4 (solver-chosen, concrete after decoding; the symbolic limit is in depth_ops)",
         symbolic={"limit": "choice: the depth limit", "v": "data: variable value", "d1,w0,wk,dirkind,dirlevel,b2": "choice: document shape"},
